@@ -338,9 +338,18 @@ func NewShortestPathSearchFromPoint(from b6.FeatureID, weights Weights, w b6.Wor
 	rs := w.FindReferences(from)
 	for rs.Next() {
 		f := w.FindFeatureByID(rs.FeatureID())
-		if p, ok := f.(b6.PhysicalFeature); ok && weights.IsUseable(b6.Segment{Feature: p}) {
-			connected = true
-			break
+		if p, ok := f.(b6.PhysicalFeature); ok {
+			// Test the whole path, as isConnected() does: a zero-length segment is
+			// never useable in the direction of a one-way street (Last > First),
+			// which left searches from points that are only on one-way streets empty.
+			segment := b6.Segment{Feature: p}
+			if p.FeatureID().Type == b6.FeatureTypePath && p.GeometryLen() > 0 {
+				segment = b6.ToSegment(p)
+			}
+			if weights.IsUseable(segment) {
+				connected = true
+				break
+			}
 		}
 		if building := f.Get("#building"); building.IsValid() {
 			buildings = append(buildings, f)
